@@ -148,8 +148,12 @@ void harness(void) {
 	if (out == NULL && c0.pending > 0) REACH("nothing finished yet");
 	if (out != NULL && k == 0) REACH("configuration handle handed back");
 	if (out != NULL && k != 0 && h0[k].state == KSI_ASYNC_STATE_WAITING_FOR_RESPONSE) REACH("receive timeout");
+#if AC_N > 2
 	if (out != NULL && k != 0 && k != c0.tail) REACH("scan moved past the tail position");
+#endif
+#if AC_N == 5
 	if (out != NULL && k == 4) REACH("slot 4 of a cache of 4");
+#endif
 }
 #endif
 
@@ -175,7 +179,10 @@ void harness(void) {
 			IMPLIES(g_c.serverConf != NULL, fanned(&g_conf, &conf0, err, ext)),
 			"setResponseError: exactly the cached handles waiting for a response fail, with the given error; all others untouched");
 	REACH("returns");
+#if AC_N > 2
 	if (ainv_slot_used(&g_c, 2) && h0[2].state == KSI_ASYNC_STATE_WAITING_FOR_RESPONSE && ainv_slot_used(&g_c, 1) && h0[1].state == KSI_ASYNC_STATE_RESPONSE_RECEIVED) REACH("one fails, a finished one is kept");
+#endif
+	if (ainv_slot_used(&g_c, 1) && h0[1].state == KSI_ASYNC_STATE_WAITING_FOR_RESPONSE) REACH("a waiting request fails");
 }
 #endif
 
@@ -183,8 +190,8 @@ void harness(void) {
  * asyncClient_run / getPendingCount: "the reported pending count always equals the number of accepted but not yet
  * returned requests"; connection failure -> the waiting requests fail */
 #ifdef H_run
-static int run_handle_resp(KSI_AsyncClient *c) { return g_env_handle_res; }     /* responses are the subject of handle_response */
-static int run_dispatch(void *impl) { return g_env_dispatch_res; }
+int run_handle_resp(KSI_AsyncClient *c) { return g_env_handle_res; }     /* responses are the subject of handle_response */
+int run_dispatch(void *impl) { return g_env_dispatch_res; }
 static int none_waiting(void) {
 	return IMPLIES(ainv_slot_used(&g_c, 1), g_h[1].state != KSI_ASYNC_STATE_WAITING_FOR_RESPONSE) && IMPLIES(ainv_slot_used(&g_c, 2), g_h[2].state != KSI_ASYNC_STATE_WAITING_FOR_RESPONSE) &&
 			IMPLIES(ainv_slot_used(&g_c, 3), g_h[3].state != KSI_ASYNC_STATE_WAITING_FOR_RESPONSE) && IMPLIES(ainv_slot_used(&g_c, 4), g_h[4].state != KSI_ASYNC_STATE_WAITING_FOR_RESPONSE) &&
@@ -219,7 +226,7 @@ void harness(void) {
  * addRequest: "a submission is refused with 'cache full' exactly when ...; never lost, duplicated" */
 #ifdef H_add_request
 void harness(void) {
-	KSI_AsyncHandle nh; int res; bool hasReq = nondet_bool(), hasCnf = nondet_bool(); size_t k, occ0; int conf_before;
+	KSI_AsyncHandle nh; int res; bool hasReq = nondet_bool(), hasCnf = nondet_bool(); size_t k, occ0, ref0; int conf_before, cached_then_failed;
 	if (!mk_client()) return;
 	g_c.clientImpl = &g_ctx; g_c.addRequest = ar_impl_add; g_c.getCredentials = ar_impl_cred;
 	mk_handle(&nh);
@@ -228,6 +235,8 @@ void harness(void) {
 	ar_init();
 	__CPROVER_assume(ainv_inv(&g_c));
 	__CPROVER_assume(nh.ref >= 1 && nh.ref < 1000);
+	__CPROVER_assume(g_conf.ref >= 2 && g_conf.ref < 1000);   /* bound: a cached configuration handle is also referenced by its submitter (harness objects are not heap objects) */
+	ref0 = nh.ref;
 	snapshot();
 	occ0 = ainv_occupied(&g_c); conf_before = g_c.serverConf != NULL;
 	res = addRequest(&g_c, &nh, (void *)&g_ar_req, hasReq, hasCnf, ar_req_new, ar_req_free, ar_getRequestId, ar_setRequestId,
@@ -237,12 +246,16 @@ void harness(void) {
 	__CPROVER_assert((k == 1 || slot_same(1)) && (k == 2 || slot_same(2)) && (k == 3 || slot_same(3)) && (k == 4 || slot_same(4)), "addRequest: no other slot changes");
 	__CPROVER_assert(IMPLIES(k != 0, cache0[k] == NULL), "addRequest: only an EMPTY slot is taken (no cached request is overwritten)");
 	__CPROVER_assert(IMPLIES(res == KSI_OK && hasReq, k != 0 && nh.id == ((unsigned long long)g_c.requestCountOffset << 32 | k) && (nh.id & ASYNC_INV_ID_MASK) == k &&
-			g_ar_reqid_set == nh.id && g_ar_transport_adds == 1 && nh.ref == h0[0].ref + 0 + 1 + 0),
+			g_ar_reqid_set == nh.id && g_ar_transport_adds == 1 && nh.ref == ref0 + 1),
 			"addRequest: accepted -> the handle sits in exactly one previously empty slot, its id names that slot and is the id sent on the wire, one copy given to the transport");
 	__CPROVER_assert(IMPLIES(res == KSI_OK && !hasReq, k == 0), "addRequest: a configuration-only request takes no slot");
 	__CPROVER_assert(IMPLIES(res == KSI_OK && !conf_before, g_c.pending == c0.pending + (hasReq ? 1 : 0) + (hasCnf ? 1 : 0) && g_c.received == c0.received),
 			"addRequest: accepted -> pending grows by one per accepted handle");
+	__CPROVER_assert(IMPLIES(res == KSI_OK && !(hasCnf && conf_before), ainv_inv(&g_c)), "addRequest: accepted -> Inv(c) holds (no configuration handle replaced)");
 	__CPROVER_assert(IMPLIES(res == KSI_OK, ainv_inv(&g_c)), "addRequest: accepted -> Inv(c) holds (the counters equal the number of cached, not yet returned handles)");
+	/* the request was already entered into the cache and handed to the transport when a later step failed */
+	cached_then_failed = res != KSI_OK && hasReq && hasCnf && g_ar_transport_adds == 1 && k != 0;
+	__CPROVER_assert(IMPLIES(res != KSI_OK && !cached_then_failed, k == 0 && cache_same() && counters_same() && ainv_inv(&g_c)), "addRequest: refused before the request was cached -> cache and counters unchanged");
 	__CPROVER_assert(IMPLIES(res != KSI_OK, k == 0 && cache_same() && counters_same()), "addRequest: refused -> the cache does not keep the caller's handle, counters unchanged");
 	__CPROVER_assert(IMPLIES(res == KSI_ASYNC_REQUEST_CACHE_FULL, hasReq && g_ar_transport_adds == 0), "addRequest: 'cache full' only for requests that need a slot, nothing sent");
 	__CPROVER_assert(IMPLIES(hasReq && occ0 + 1 == ainv_N(&g_c) && g_ar_getid_res == KSI_OK && g_ar_setid_res == KSI_OK, res == KSI_ASYNC_REQUEST_CACHE_FULL), "addRequest: every slot occupied -> refused with 'cache full'");
